@@ -137,6 +137,8 @@ def run_login(w, sc, mon):
         decide("session_key_byte", i, sc["user"], bytes(k2), want, cs)
     for bit in (range(160) if full else rnd.sample(range(160), 3)):
         decide("proof_bitflip", bit, sc["user"], K, flipbit(want, bit), cs)
+    for name, pp in (("all_zero", bytes(20)), ("all_ff", b"\xff" * 20), ("is_key_prefix", K[:20]), ("is_name_hash", M.H(un.encode()))):
+        decide("constant_proof", name, sc["user"], K, pp, cs)
     canc = [("reversed", want[::-1]), ("rotated", want[1:] + want[:1])]
     for _ in range(6 if full else 1):
         i, j = rnd.sample(range(20), 2)
@@ -212,7 +214,7 @@ def related_history(w, rnd, mon, x):
 def worker(idx, nworkers, tier, seed, extra):
     mon = Monitor()
     rnd = rng_for(seed, "c06", idx)
-    nfull, nsamp = {"quick": (6, 700), "thorough": (60, 21000)}[tier]
+    nfull, nsamp = {"quick": (6, 700), "thorough": (200, 50000)}[tier]
     w = Wsx()
     try:
         for x in ("v", "t", "w"):
